@@ -109,6 +109,15 @@ class FrameScan(ast.NodeVisitor):
                     tgts, val = [n.optional_vars], n.context_expr
                 if val is None:
                     continue
+                # a, b = x, y  binds elementwise
+                if isinstance(n, ast.Assign) and isinstance(val, (ast.Tuple, ast.List)):
+                    for t in tgts:
+                        if isinstance(t, (ast.Tuple, ast.List)) and len(t.elts) == len(val.elts):
+                            for te, ve in zip(t.elts, val.elts):
+                                if isinstance(te, ast.Name) and te.id not in tainted and self.derived(ve, tainted):
+                                    tainted.add(te.id)
+                                    changed = True
+                    continue
                 if self.derived(val, tainted):
                     for t in tgts:
                         # only plain names (and tuples/lists of them) become aliases; `obj.attr = p` does not make `obj` an alias of p
@@ -445,6 +454,67 @@ def build(run):
         return thunk
     run.add("dynamic-frame/forms", dynamic("forms"), kind="bounded")
     run.add("dynamic-frame/expressions", dynamic("exprs"), kind="bounded")
+
+    # base forms (FormSum with weights, Action, Adjoint, Cofunction, Matrix): passes run through map_integrands, which rebuilds FormSums and
+    # drops vanished components -- the input's component and weight lists must stay as they were
+    def base_forms():
+        from ufl import Action, Adjoint, Cofunction, FormSum, Matrix, ZeroBaseForm, action, adjoint
+        from ufl.algorithms import apply_algebra_lowering, apply_derivatives, expand_derivatives, map_integrands
+        m, forms, exprs, T = corpus()
+        u, v, f, g, V = T["u"], T["v"], T["f"], T["g"], T["V"]
+        c1, c2 = Cofunction(V.dual()), Cofunction(V.dual())
+        M = Matrix(V, V)
+        lin = f * g * v * dx
+        inputs = {
+            "form + 2*cofunction": FormSum((lin, 1), (c1, 2)),
+            "3*cofunction + form + 5*cofunction": FormSum((c1, 3), (lin, 1), (c2, 5)),
+            "2*Action(M, f) + 3*c1 + 5*c2": FormSum((Action(M, f), 2), (c1, 3), (c2, 5)),
+            "Action(M, f)": Action(M, f), "Adjoint(M)": Adjoint(M), "matrix + 2*adjoint": FormSum((M, 1), (Adjoint(M), 2)),
+        }
+
+        def snap(x):
+            with warnings.catch_warnings():
+                warnings.simplefilter("ignore")
+                s_ = {"repr": repr(x), "str": str(x), "hash": hash(x), "arguments": tuple(map(repr, x.arguments())), "coefficients": tuple(map(repr, x.coefficients()))}
+                if isinstance(x, FormSum):
+                    s_["weights"] = tuple(map(repr, x.weights()))
+                    s_["components"] = tuple(map(repr, x.components()))
+                    s_["operands"] = tuple(map(repr, x.ufl_operands))
+            return s_
+        zero_all = lambda e: C.Zero(e.ufl_shape, e.ufl_free_indices, e.ufl_index_dimensions) if isinstance(e, C.Expr) else ZeroBaseForm(e.arguments())  # noqa: E731
+        AL = [("apply_algebra_lowering", lambda x: apply_algebra_lowering.apply_algebra_lowering(x)),
+              ("apply_derivatives(derivative(x, g, u))", lambda x: apply_derivatives.apply_derivatives(ufl.derivative(x, g, u))),
+              ("apply_derivatives(derivative(x, f, u))", lambda x: apply_derivatives.apply_derivatives(ufl.derivative(x, f, u))),
+              ("expand_derivatives(derivative(x, f, u))", lambda x: expand_derivatives(ufl.derivative(x, f, u))),
+              ("replace c1 -> 0", lambda x: ufl.replace(x, {c1: ZeroBaseForm((v,))})), ("replace f -> 0", lambda x: ufl.replace(x, {f: C.Zero()})),
+              ("replace f -> g", lambda x: ufl.replace(x, {f: g})), ("map_integrands(everything -> 0)", lambda x: map_integrands.map_integrands(zero_all, x)),
+              ("map_integrands(identity)", lambda x: map_integrands.map_integrands(lambda e: e, x)),
+              ("x + x", lambda x: x + x), ("2*x", lambda x: 2 * x), ("-x", lambda x: -x), ("x - x", lambda x: x - x), ("adjoint", lambda x: adjoint(x)),
+              ("action(x, f)", lambda x: action(x, f)), ("x == x", lambda x: x.equals(x)), ("signature-like repr", lambda x: repr(x))]
+        ncalls = 0
+        for xn, x in inputs.items():
+            before = snap(x)
+            for rounds in (1, 2):           # twice: a pass that shortens a list of its input fails differently the second time
+                for an, a in AL:
+                    try:
+                        with warnings.catch_warnings():
+                            warnings.simplefilter("ignore")
+                            a(x)
+                        outcome = "returned"
+                    except BaseException as ex:  # noqa: BLE001
+                        if isinstance(ex, (KeyboardInterrupt, SystemExit)):
+                            raise
+                        outcome = f"raised {type(ex).__name__}"
+                    ncalls += 1
+                    after = snap(x)
+                    if after != before:
+                        dk = [k for k in before if before[k] != after.get(k)]
+                        return violated(f"{an} ({outcome}) changed its input base form '{xn}': {dk} differ; e.g. {str(before[dk[0]])[:160]} -> {str(after[dk[0]])[:160]}",
+                                        replay={"algorithm": an, "input": xn, "changed": dk, "before": {k: str(before[k])[:400] for k in dk}, "after": {k: str(after[k])[:400] for k in dk}},
+                                        reproduced=True, backend="exec(snapshot)")
+        return bounded_ok(ncalls, f"{len(inputs)} base forms x {len(AL)} algorithms, two rounds on the same objects",
+                          sample="repr, str, hash, arguments, coefficients, components and weights unchanged after every call")
+    run.add("dynamic-frame/base-forms", base_forms, kind="bounded")
 
     def measures():
         m, forms, exprs, T = corpus()
